@@ -21,14 +21,14 @@ def tok_expr(g, i, lang):
 
 def go_action(idx, r, plain=False):
     if plain:
-        return '{ $$ = (%s) %% %d }' % (' + '.join(['%d*$%d' % (r['coef'][j], j + 1) for j in range(len(r['rhs'])) if r['coef'][j] != 0] + [str(r['c'])]), gram.MOD)
+        return '{ Steps++; if Steps > %d { panic("STEPLIMIT") }; $$ = (%s) %% %d }' % (LIMIT, ' + '.join(['%d*$%d' % (r['coef'][j], j + 1) for j in range(len(r['rhs'])) if r['coef'][j] != 0] + [str(r['c'])]), gram.MOD)
     expr = ' + '.join(['%d*$%d' % (r['coef'][j], j + 1) for j in range(len(r['rhs'])) if r['coef'][j] != 0] + [str(r['c'])])
     return '{ Reds = append(Reds, %d*1000+Fetched); if len(Reds) > %d { panic("STEPLIMIT") }; nestHookR(); $$ = (%s) %% %d }' % (idx + 1, LIMIT, expr, gram.MOD)
 
 
 def ts_action(idx, r, plain=False):
     if plain:
-        return '{ $$ = (%s) %% %d }' % (' + '.join(['%d*$%d' % (r['coef'][j], j + 1) for j in range(len(r['rhs'])) if r['coef'][j] != 0] + [str(r['c'])]), gram.MOD)
+        return '{ Steps++; if (Steps > %d) { throw new Error("STEPLIMIT") }; $$ = (%s) %% %d }' % (LIMIT, ' + '.join(['%d*$%d' % (r['coef'][j], j + 1) for j in range(len(r['rhs'])) if r['coef'][j] != 0] + [str(r['c'])]), gram.MOD)
     expr = ' + '.join(['%d*$%d' % (r['coef'][j], j + 1) for j in range(len(r['rhs'])) if r['coef'][j] != 0] + [str(r['c'])])
     return '{ Reds.push(%d*1000+Fetched); if (Reds.length > %d) { throw new Error("STEPLIMIT") }; $$ = (%s) %% %d }' % (idx + 1, LIMIT, expr, gram.MOD)
 
@@ -62,6 +62,7 @@ def decl_block(g, lang):
 GO_EPI = '''
 var Reds []int
 var Fetched int
+var Steps int
 var NestAt int = -1
 var NestInput string
 var NestResult string
@@ -69,9 +70,9 @@ var NestAtR int = -1
 func nestHookR() {
 	if len(Reds) == NestAtR {
 		NestAtR = -1
-		sr, sf := Reds, Fetched
+		sr, sf, ss := Reds, Fetched, Steps
 		NestResult = runNested(NestInput)
-		Reds, Fetched = sr, sf
+		Reds, Fetched, Steps = sr, sf, ss
 	}
 }
 func GetToken(input string, valTy *ValType, pos *int) int {
@@ -98,7 +99,7 @@ func render(v *ValType) string {
 	return fmt.Sprint("A|", v.%(starttag)s, "|", Reds, "|", Fetched)
 }
 func runOnce(f func() *ValType) (res string) {
-	Reds = nil; Fetched = 0
+	Reds = nil; Fetched = 0; Steps = 0
 	defer func() { if r := recover(); r != nil { res = fmt.Sprint("E|", r, "|", Reds, "|", Fetched) } }()
 	return render(f())
 }
@@ -150,6 +151,7 @@ func runNested(input string) string { return runOnce(func() *ValType { c := Make
 TS_EPI = '''
 var Reds :number[] = [];
 var Fetched = 0;
+var Steps = 0;
 var Errs :string[] = [];
 const origError = console.error;
 console.error = function(...a :any[]) { Errs.push(a.join(" ")) };
@@ -166,7 +168,7 @@ function GetToken(input :string, model:{ValType :ValType, pos :number}) :number 
 	return 7777;
 }
 function RunFresh(input :string) :string {
-	Reds = []; Fetched = 0; Errs = [];
+	Reds = []; Fetched = 0; Errs = []; Steps = 0;
 	initialize();
 	try {
 		let v = Parser(input);
